@@ -475,6 +475,10 @@ class PyFat(object):
         # Fill rest of data with zeroes if erase is set to True
         if erase:
             new_sz = max(1, math.ceil(data_sz / self.bytes_per_cluster))
+            # Wipe the whole chain: a directory that shrinks must not
+            # leave stale entries in the clusters behind the new end
+            new_sz = max(new_sz,
+                         sum(1 for _ in self.get_cluster_chain(cluster)))
             new_sz *= self.bytes_per_cluster
             data += b'\0' * (new_sz - data_sz)
 
